@@ -334,6 +334,9 @@ def check(ctx):
     pr = vf.proof_step(ctx, "Properties_C18")
     exe = build_driver(ctx)
     nb = check_own(ctx, exe)
+    # second part of the ownership model (coq/Model/MOwn2.v): host/port and URI functions, ... -- same trace correspondence, own driver
+    import c18_more
+    nb += c18_more.check_more(ctx)
     na = check_sweep(ctx, exe)
     ctx.cov["exhaustive"] = False
     rule = ("(B) S-own: for each of the 17 case families of coq/Model/MOwnCases.v (conn create/open, list create/push with first = 0 and "
@@ -356,6 +359,9 @@ def check(ctx):
 
 def replay(ctx, path):
     obj = json.load(open(path))
+    if obj.get("suite") == "S-own2":
+        import c18_more
+        return c18_more.replay_more(ctx, obj)
     exe = build_driver(ctx)
     if obj.get("suite") == "S-own" and obj.get("case"):
         mexe = vf.build_model_driver(ctx)
